@@ -2152,6 +2152,14 @@ def bounds_update_table(db, chk, cfg, rule="BOUNDS.minmax"):
         # the four accumulators, by the comparisons the update makes:  v.c < A  -> A is the minimum of c;  v.c > A  -> the maximum
         amin = {"x": [], "y": []}
         amax = {"x": [], "y": []}
+        # the element may also be reached through an alias declared in the body (`const Point<T>& p = *it;`)
+        alias_decl = None
+        for s0 in (kids(body) if body.get("kind") == "CompoundStmt" else []):
+            if isinstance(s0, dict) and s0.get("kind") == "DeclStmt" and len(kids(s0)) == 1 and "&" in (qt(kids(s0)[0]) or "") and "Point<" in (dqt(kids(s0)[0]) or ""):
+                init = [c0 for c0 in kids(kids(s0)[0]) if isinstance(c0, dict) and c0.get("kind")]
+                if init and re.sub(r"[()*]", "", canon(init[-1])) == lv:
+                    alias_decl = s0
+                    lv, sep = kids(s0)[0].get("name"), "."
         for y in walk(body):
             if y.get("kind") == "BinaryOperator" and y.get("opcode") in ("<", ">", "<=", ">="):
                 a0, a1 = canon(kids(y)[0]), canon(kids(y)[1])
@@ -2162,6 +2170,8 @@ def bounds_update_table(db, chk, cfg, rule="BOUNDS.minmax"):
                         (amin if op == "<" else amax)[c].append(a1)
                     elif a1 == vc and strip(kids(y)[0]).get("kind") == "DeclRefExpr":
                         (amin if op == ">" else amax)[c].append(a0)
+        if alias_decl is not None:
+            body = {"kind": "CompoundStmt", "inner": [s0 for s0 in kids(body) if s0 is not alias_decl]}
         for c in "xy":
             amin[c] = sorted(set(amin[c]))
             amax[c] = sorted(set(amax[c]))
